@@ -216,7 +216,8 @@ def run_job(job):
                         continue
                     if kind == "rot":
                         dn, comp, pool, load = rotations(i // ns + seed)
-                        combos = [(dn, comp, rc, pool, load) for rc in RECHUNK]
+                        jj = i // ns + seed
+                        combos = [(dn, comp, RECHUNK[(jj + k) % 4], pool, load) for k in (0, 2)]  # two of the four rechunk settings, rotating
                     else:
                         j = i // ns
                         combos = [(dn, comp, RECHUNK[(j + k) % 4], (j + k) % 2 == 1, LOADS[(j + k2) % len(LOADS)]) for k, dn in enumerate(DTYPES) for k2, comp in enumerate(COMPRESSORS)]
